@@ -7,13 +7,13 @@ TEXT = {
          "Unforgeability is outside every theorem; curve/hash mathematics is not proved, only re-implemented and compared."),
  "C02": ("decode_iff_wellformed: for every byte string and key type the model decoder accepts iff the declarative WellFormed predicate holds (canonical framing as equality with the canonical encoding). Tie: dec family with generator-side expectations that are independent of the model.",
          "65-byte SEC1 keys and inner bytes of unknown-key lists are excluded from the verdict as the property says."),
- "C03": ("Every expect/unwrap/slice of the Rust code is an explicit panic outcome in the model; theorems: updates and builder never return panic, accessors of Valid records never panic (lifted to all histories via C05), decoders are total functions accepted by Lean's termination checker. Tie: every library call of every family runs under catch_unwind and a panic is a predicate failure.",
+ "C03": ("Every expect/unwrap/slice of the Rust code is an explicit panic outcome in the model; theorems: updates and builder never return panic, accessors of Valid records never panic (lifted to all histories via C05), decoders are total functions accepted by Lean's termination checker. Tie: every library call of every family runs under catch_unwind and a panic is a predicate failure; also concurrent decodes of one buffer, several threads reading one shared record, calls from the destructor of a thread-local of an exiting thread, deeply nested values (process abort detection), and a second build without debug assertions.",
          "Panics inside dependency crates, allocation failure and stack depth are not modelled; partial in that respect."),
  "C04": ("decode_reencode (consumed bytes are reproduced exactly), encode determines the fields, Valid r -> decode(encode r) = r for bytes, text and JSON; with C05 this covers every record handed out. Tie: dec family (re-encoding vs consumed input) and hist/acc families (bytes/text/JSON round trips after every step, model re-decode of the implementation's encoding).",
          "The serde_json string layer (quoting, escapes, \\u sequences, surrogates) is modelled and proved to round-trip; serde_json itself is a dependency, modelled not verified."),
  "C05": ("Invariant by induction over arbitrary histories: build_valid, decode_valid, step_valid, run_valid for any lawful key type and any signing oracle whose answers verify (SigOK); re-keying theorem; builder reuse (build_again_same_key / other_key, build_reused_is_valid); instantiated for the four concrete schemes (run_valid_k256/libsecp/ed/comb) whose lawfulness is proved; monitor soundness (C05_monitor_record_sound, C05_monitor_checkRecord): the per-record predicates the driver evaluates cannot fire on a record that is Valid in the model. Tie: hist/size/acc/eq families for all built-in key types plus a toy scheme with variable-length signatures; SigOK is evaluated on every concrete signature with the model's own crypto.",
          "Scheme laws (pub_inj, key_not_reserved, pub_local) are proved for the toy scheme and for the byte-level models of the four real key types; that the real crates compute those encodings is validated by the tie."),
- "C06": ("step_error_unchanged: for every record, operation and oracle answer (including signer failure and signatures of any length) an error leaves the record equal to the one before. Tie: hist/size families with fault-injecting keys and the toy scheme; before/after comparison of all fields and the encoding on the implementation.",
+ "C06": ("step_error_unchanged: for every record, operation and oracle answer (including signer failure and signatures of any length) an error leaves the record equal to the one before. Tie: hist/size families with fault-injecting keys (signer returns an error; signer answers with a signature that does not verify) and the toy scheme, with and without debug assertions; before/after comparison of all fields and the encoding on the implementation.",
          "The model mirrors the clone-and-commit structure of the code; the tie is what detects in-place mutation."),
  "C07": ("step_seq_succ, step_setSeq_exact, step_no_wrap (never Ok at 2^64-1, error kind characterised), u64 round trip. Tie: hist/size/acc/dec from every boundary sequence number, with quiet steps (nothing reads the record's bytes between two updates), with and without debug assertions; the number through bytes and text after every step.", ""),
  "C08": ("Content equations for every mutator and the builder against the sorted association-list model, untouched-keys theorem, return values, error causes; C08_admissible_sound / C08_build_admissible_sound: the set of error kinds the runtime monitor admits contains the error the model step (the model build) returns, for every record, operation, builder and signer outcome. Tie: the model IS the plain sorted map; pairs and return values are compared after every step, error kinds against the admissible set.",
@@ -22,7 +22,7 @@ TEXT = {
  "C10": ("nodeId_spec for decoded, built and updated records, accessor agreement, same-key stability, dependence on the public-key entry only. Tie: the expected id is recomputed by the Lean Keccak and curve code from the raw public-key entry of every observed record; ck family derives keys from edge-case scalars.", ""),
  "C11": ("Parsers of the two secp256k1 back-ends proved equal outside 65-byte keys, CombinedKey precedence/dispatch and isolation theorems. Back-end agreement itself is a relation between implementations and is carried by the correspondence: every dec/stream input under all four key types, every record of every history re-decoded under every other key type.",
          "Proof for dispatch/precedence/isolation; differential for back-end agreement."),
- "C12": ("b64 round trip and canonicity, text form, parseText_iff (accepted strings are exactly the text and the text without prefix), foreign characters and trailing bytes rejected; JSON document form and serde_json string layer (parse_json_exact, json_quote_roundtrip, escaped spellings). Tie: txt family (padding, alphabets, whitespace, prefixes, trailing bits, appended bytes) through from_str and serde_json.", ""),
+ "C12": ("b64 round trip and canonicity, text form, parseText_iff (accepted strings are exactly the text and the text without prefix), foreign characters and trailing bytes rejected; JSON document form and serde_json string layer (parse_json_exact, json_quote_roundtrip, escaped spellings). Tie: txt family (padding, alphabets, ASCII and Unicode whitespace, byte-order marks, prefixes, trailing bits, 1..131072 appended bytes) through from_str and every serde_json route; Display into failing sinks and under width / precision specifications.", ""),
  "C13": ("decode_append / prefix locality in both directions with the same error, advance = item length, decodeMany and decodeList characterised exactly (decode_many_iff, decode_list_spec, decode_many_append). Tie: stream family (suffixes 0..1000 bytes, back-to-back records, Vec<Enr>).", ""),
  "C14": ("Accessor characterisations (port/ip/id/client) against the raw content, u16 round trip for all ports by proof, setter and builder read-back, socket combination, id / client-info strings through the UTF-8 (lossy) model. Tie: acc family (ports through builder/setter/socket setter/decode, 64 presence combinations, arbitrary raw values, special-purpose addresses, strings and keys of every length class and with byte-order marks / control characters), typed builder methods read back, accessors after every re-decode.", ""),
  "C15": ("Equality is structural (eqv_iff_eq), an equivalence, implies equal hash feed, identical pairs and identical encoding unconditionally (since fix 60cb6b7 equality compares the pairs; the legacy definition needed the cryptographic hypotheses SigBinds/HashInj, kept as documentation with the counterexample); clone and re-decode; compare_content_iff by payload injectivity. Tie: eq family (clones, re-decodings, re-signings, one-field edits, re-keyings, proper-prefix contents, key/value boundary shifts, and two valid records with the same signature but different pairs under a small-order ed25519 key).",
